@@ -125,8 +125,14 @@ pub fn check_triple_parsed(which: u8, y: i32, m: u32, d: u32) -> Result<bool, St
     use sqldatetime::{OracleDate, Timestamp};
     let c = cal();
     let expect = c.lookup(y as i64, m as i64, d as i64);
-    let (text, pic) = if which / 3 == 0 { (format!("{y:04}-{m:02}-{d:02}"), "YYYY-MM-DD") } else { (format!("{d}.{m}.{y} 10:20:30"), "DD.MM.YYYY HH24:MI:SS") };
-    let extra = if which / 3 == 0 { 0i128 } else { 37_230_000_000 };
+    // four pictures: every position of the year relative to month and day
+    let (text, pic) = match which / 3 {
+        0 => (format!("{y:04}-{m:02}-{d:02}"), "YYYY-MM-DD"),
+        1 => (format!("{d}.{m}.{y} 10:20:30"), "DD.MM.YYYY HH24:MI:SS"),
+        2 => (format!("{m:02}/{d:02}/{y:04}"), "MM/DD/YYYY"),
+        _ => (format!("{d:02} {y:04} {m:02}"), "DD YYYY MM"),
+    };
+    let extra = if which / 3 == 1 { 37_230_000_000i128 } else { 0 };
     let name = ["Date", "Timestamp", "OracleDate"][which as usize % 3];
     let res: Result<i128, Error> = guarded(|| match which % 3 {
         0 => Date::parse(&text, pic).map(|x| x.days() as i128 * 86_400_000_000 + extra),
@@ -134,7 +140,7 @@ pub fn check_triple_parsed(which: u8, y: i32, m: u32, d: u32) -> Result<bool, St
         _ => OracleDate::parse(&text, pic).map(|x| x.usecs() as i128),
     })
     .map_err(|p| format!("{name}::parse({text:?}, {pic:?}): {p}"))?;
-    if which % 3 == 0 && which / 3 != 0 {
+    if which % 3 == 0 && which / 3 == 1 {
         // a time-bearing picture does not apply to the plain date: any error
         return match res {
             Err(_) => Ok(false),
@@ -395,9 +401,9 @@ pub fn run(ctx: &Ctx) -> (Stats, Report) {
             let y = y as i32;
             for &m in &pm {
                 for &d in &pd {
-                    // two pictures x three types, rotated so that every (month, day) pair meets each of them on every 6th year
-                    let rot = [((y as u32 + m + d) % 6) as u8, ((y as u32 + m + d + 1) % 6) as u8];
-                    let whichs: &[u8] = if all_entry_points { &[0, 1, 2, 3, 4, 5] } else { &rot };
+                    // four pictures (year first / last / in the middle) x three types, rotated so that every (month, day) pair meets each of them on every 12th year
+                    let rot = [((y as u32 + m + d) % 12) as u8, ((y as u32 + m + d + 5) % 12) as u8];
+                    let whichs: &[u8] = if all_entry_points { &[0, 1, 2, 3, 4, 5, 6, 7, 8, 9, 10, 11] } else { &rot };
                     for &which in whichs {
                         st.evaluations += 1;
                         match check_triple_parsed(which, y, m, d) {
